@@ -85,6 +85,45 @@ def run(ctx):
         if v:
             v["input"] = {"fn": fn, "args": [core.show(a) for a in args]}
             res["violations"].append(v)
+    # long messages (nothing dropped or mis-chained at any internal chunk size): implementation vs hand chaining
+    for n in ((65521, 65536, 65537, 70001) if not ctx.thorough else (65521, 65536, 65537, 70001, 131071, 131073, 200000)):
+        d = rng.randbytes(n)
+        big = [("generate_cbc_mac", (rng.randbytes(16), d, rng.choice((1, 2, 3)), None, False)),
+               ("generate_cbc_mac", (rng.randbytes(24), d, 2, 5, True)),
+               ("generate_retail_mac", (rng.randbytes(8), rng.randbytes(16), d, rng.choice((1, 2)), None))]
+        for fn, args in big:
+            out = core.impl_call(fn, args)
+            v = check_impl(fn, args, out)
+            res["evaluations"] += 1
+            res["distribution"]["long:" + fn] = res["distribution"].get("long:" + fn, 0) + 1
+            if v:
+                v["input"] = {"fn": fn, "message_length": n, "key": args[0].hex(), "padding": args[2] if fn == "generate_cbc_mac" else args[3]}
+                res["violations"].append(v)
+    # a key held in ONE bytearray that the caller overwrites between calls (no stale key material may be reused)
+    for ks in (8, 16, 24):
+        buf = bytearray(rng.randbytes(ks))
+        for step in range(4):
+            msg = rng.randbytes(rng.randrange(1, 30))
+            for fn, args in (("generate_cbc_mac", (buf, msg, 1, None, False)), ("generate_retail_mac", (buf, rng.randbytes(8), msg, 2, None)),
+                             ("generate_retail_mac", (rng.randbytes(16), buf, msg, 1, None))):
+                out = core.impl_call(fn, args)
+                frozen = tuple(bytes(a) if isinstance(a, bytearray) else a for a in args)
+                v = check_impl(fn, frozen, out)
+                res["evaluations"] += 1
+                if v:
+                    v["input"] = {"fn": fn, "args": [core.show(a) for a in frozen], "note": "key passed as a bytearray overwritten in place between calls (step %d)" % step}
+                    res["violations"].append(v)
+            buf[:] = rng.randbytes(ks)
+    if ks == 16 or True:
+        buf = bytearray(rng.randbytes(16))
+        for step in range(3):
+            out = core.impl_call("generate_cbc_mac", (buf, b"abcdefgh", 1, None, True))
+            v = check_impl("generate_cbc_mac", (bytes(buf), b"abcdefgh", 1, None, True), out)
+            res["evaluations"] += 1
+            if v:
+                v["input"] = {"fn": "generate_cbc_mac(AES)", "key": bytes(buf).hex(), "note": "bytearray key overwritten in place (step %d)" % step}
+                res["violations"].append(v)
+            buf[:] = rng.randbytes(16)
     # oracle-free identity: single-block retail MAC = E_k1(D_k2(E_k1(block)))
     for _ in range(20):
         k1, k2, blk = rng.randbytes(8), rng.randbytes(8), rng.randbytes(8)
